@@ -61,8 +61,17 @@ def run_one(args):
     kw = {k: v for k, v in cfg.items() if not k.startswith("_")}
     res = dict(job=label, jobname=jobname, cfg=kw, obls=[], error=None, secs=0.0, functions=[], notes=[],
                defined=0, crosscheck=None)
+    import signal
+
+    def _alarm(sig, frm):
+        raise TimeoutError("job exceeded its time budget of %d s" % budget)
+    budget = int(os.environ.get("OASVERIF_JOB_TIMEOUT", "900"))
+    signal.signal(signal.SIGALRM, _alarm)
+    signal.alarm(budget)
     try:
         S.reset()
+        from . import helpers
+        helpers.deactivate()
         del spshim.SOLVES[:]
         env = core.Env("sym", seed=seed, ranges=jb.ranges)
         jb.fn(env, **kw)
@@ -71,6 +80,8 @@ def run_one(args):
         res["assumptions"] = sorted(env.assumptions)
         res["defined"] = len(S.DEFINED)
         res["roundoff"] = env.roundoff
+        if S.TINY_SEEN:
+            res["notes"] = res["notes"] + ["float constants below 1e-40 treated as 0: %s" % sorted(set(S.TINY_SEEN))]
         res["atoms"] = len(S.A.names)
         # native replay of refuted obligations against the real code
         for o in env.obls:
@@ -107,7 +118,11 @@ def run_one(args):
     except Exception as e:
         res["error"] = "%s: %s" % (type(e).__name__, e)
         res["trace"] = traceback.format_exc()[-3000:]
+    finally:
+        signal.alarm(0)
     res["secs"] = round(time.time() - t0, 3)
+    if os.environ.get("OASVERIF_PROGRESS"):
+        sys.stderr.write("  done %-70s %7.1fs %s\n" % (label, res["secs"], res["error"] or ""))
     return res
 
 
